@@ -26,7 +26,7 @@ _DEBUG_LOGGING = False
 def _asks_log_level(repo) -> bool:
     """Does any module of the package ask its logger which level is enabled (so that behaviour can depend on the logging configuration)?"""
     import re as _re
-    return any(_re.search(r'isEnabledFor|getEffectiveLevel|\.level\b|\.disabled\b', m.src) for m in repo.modules.values())
+    return any(_re.search(r'isEnabledFor|getEffectiveLevel|logg\w*\.level\b|logg\w*\.disabled\b', m.src) for m in repo.modules.values())
 
 
 def both_log_levels(fn):
